@@ -332,11 +332,6 @@ def r_lookup_and_separate(ctx):
 
 
 # ---------------------------------------------------------------------------------------------------
-class _Rem(Evaluator):
-    def name(self, node):
-        raise AnalysisError("unbound %s" % node.id)
-
-
 def r_stationary_list(ctx):
     """Every recorded sample whose (pruned) gradient is zero joins the stationary list, whichever way it reached the function
     (stationary_point, a step, a composite handing a zero remainder to a term): the test sits in add_point."""
@@ -370,6 +365,115 @@ def r_sample_registered(ctx):
            "every sample handed to add_point is appended to list_of_points, on every path" if okr else
            "on some path add_point completes without registering the sample (appends per completing path: %s): whether a sample constrains the function "
            "then depends on what was recorded before it" % sorted(normal), loc(fn, fn))
+
+
+def r_addpoint_program(ctx):
+    """add_point of a composite, unrolled by sa/miniint.py for 1..3 terms and every way the terms can be classified (need nothing / a gradient /
+    both) with at least one term in need: the sample is registered once; every term is visited exactly once -- through its oracle or by receiving
+    the remainder; the remainder goes to a term that needs a value if there is one (else to one that needs a gradient); and
+    sum_k weight_k * (gradient, value of term k) == (gradient, value) of the composite.  With no term in need nothing is asked of any term."""
+    from ..miniint import IndexInterp, SymObj, VecObj
+    import itertools as _it
+    fn = _fn(ctx, "add_point")
+    trip = params_of(fn)[1]
+    n_runs = 0
+    bad = None
+    for n in (1, 2, 3):
+        for classes in _it.product((0, 1, 2), repeat=n):
+            n_runs += 1
+            fobjs = [SymObj("Function", label="f%d" % (k + 1)) for k in range(n)]
+            ws = [Rat.sym("w%d" % (k + 1)) for k in range(n)]
+            dd = dict(zip(fobjs, ws))
+            lists = ([], [], [])
+            for k, c0 in enumerate(classes):
+                lists[c0].append((fobjs[k], ws[k]))
+            x = VecObj("Point", PointV.atom("x"), decomposition_dict={SymObj("Point", label="x"): Rat(1)})
+            G = VecObj("Point", PointV.atom("G"), decomposition_dict={SymObj("Point", label="G"): Rat(1)})
+            F = VecObj("Expression", ExprV.atom("F"), decomposition_dict={SymObj("Expression", label="F"): Rat(1)})
+            log = []
+
+            def on_call(node, it, lists=lists, log=log, dd=dd):
+                nm = call_name(node)
+                if nm == "prune_dict" and len(node.args) == 1:
+                    v0 = it.ev(node.args[0])
+                    if v0 is dd:
+                        log.append(("prune", None))
+                    return v0
+                if nm == SEPARATE:
+                    log.append(("separate", None))
+                    return tuple(list(l0) for l0 in lists)
+                if nm in ("oracle", "add_point") and isinstance(node.func, ast.Attribute):
+                    recv = it.ev(node.func.value)
+                    if isinstance(recv, SymObj) and recv.kind == "Function":
+                        if nm == "oracle":
+                            k = int(recv.attrs["label"][1:])
+                            log.append(("oracle", recv))
+                            return (VecObj("Point", PointV.atom("g%d" % k)), VecObj("Expression", ExprV.atom("v%d" % k)))
+                        arg = it.ev(node.args[0]) if node.args else None
+                        log.append(("add_point", recv, arg))
+                        return None
+                if nm == "isinstance":
+                    return True
+                return NotImplemented
+            env = {trip: (x, G, F), "self._is_leaf": False, "self.decomposition_dict": dd, "self.list_of_points": [], "self.list_of_stationary_points": []}
+            it = IndexInterp(env, on_call=on_call)
+            label = "%d term(s) classified %s" % (n, list(classes))
+            try:
+                it.run(fn.body)
+            except AnalysisError as e:
+                bad = "%s: add_point not interpretable: %s" % (label, e)
+                break
+            reg = it.env.get("self.list_of_points")
+            if not (isinstance(reg, list) and len(reg) == 1 and reg[0] == (x, G, F)):
+                bad = "%s: the sample is registered %s time(s)" % (label, len(reg) if isinstance(reg, list) else "?")
+                break
+            order = [e0[0] for e0 in log if e0[0] in ("prune", "separate")]
+            if order[:2] != ["prune", "separate"]:
+                bad = "%s: the weights of the composite are not pruned before the terms are classified (calls: %s)" % (label, order)
+                break
+            log[:] = [e0 for e0 in log if e0[0] in ("oracle", "add_point")]
+            need = [k for k, c0 in enumerate(classes) if c0 > 0]
+            if not need:
+                if log:
+                    bad = "%s: no term needs anything, yet %s is called" % (label, log[0][0])
+                    break
+                continue
+            visited = [e0[1] for e0 in log]
+            if sorted(id(v) for v in visited) != sorted(id(f0) for f0 in fobjs):
+                bad = "%s: the terms are visited %s, expected each of the %d terms exactly once (oracle, or add_point for the last one)" % (
+                    label, [v.attrs["label"] for v in visited], n)
+                break
+            adds = [e0 for e0 in log if e0[0] == "add_point"]
+            if len(adds) != 1:
+                bad = "%s: %d terms receive a remainder" % (label, len(adds))
+                break
+            last = adds[0]
+            kl = fobjs.index(last[1])
+            want_class = 2 if 2 in classes else 1
+            if classes[kl] != want_class:
+                bad = "%s: the remainder (gradient and value) is handed to %s, which %s; a term that %s exists" % (
+                    label, last[1].attrs["label"], ("needs nothing at this point" if classes[kl] == 0 else "only needs a gradient (it already has a value)"),
+                    "needs a value" if want_class == 2 else "needs a gradient")
+                break
+            arg = last[2]
+            if not (isinstance(arg, tuple) and len(arg) == 3 and arg[0] is x and isinstance(arg[1], VecObj) and isinstance(arg[2], VecObj)):
+                bad = "%s: the last term is given `%r`, not (point, gradient, value)" % (label, arg)
+                break
+            totg, totf = PointV(), ExprV()
+            for k in range(n):
+                gk, vk = (arg[1].val, arg[2].val) if k == kl else (PointV.atom("g%d" % (k + 1)), ExprV.atom("v%d" % (k + 1)))
+                totg = totg + gk.scale(ws[k])
+                totf = totf + vk.scale(ws[k])
+            if not (totg.equals(PointV.atom("G")) and totf.equals(ExprV.atom("F"))):
+                bad = "%s: sum of weight * gradient = `%s` (expected G), sum of weight * value = `%s` (expected F)" % (label, totg, totf)
+                break
+        if bad:
+            break
+    ctx.ob("R-WSUM", "Function.add_point::weighted sum (unrolled, 1..3 terms, every classification)", bad is None,
+           "the sample is registered once, every term is visited once, the remainder goes to a term in need and the weighted samples of the terms sum to the sample of the composite"
+           if bad is None else bad, loc(fn, fn))
+    ctx.count("add_point programs unrolled", n_runs)
+    return n_runs
 
 
 def r_addpoint(ctx):
@@ -409,195 +513,8 @@ def r_addpoint(ctx):
            "on some path add_point completes without registering the sample (appends per completing path: %s): a step that records a sample on the "
            "function (e.g. a proximal step at an already evaluated point) silently loses it" % sorted(normal), loc(fn, fn))
     r_stationary_list(ctx)
-    # 2. composite branch: weights pruned, then remainder
-    comp = [s for s in fn.body if isinstance(s, ast.If) and src(s.test).replace(" ", "") in ("notself._is_leaf", "notself.get_is_leaf()")]
-    if len(comp) != 1:
-        ctx.ob("R-ADDPOINT", "Function.add_point::composite branch", False, "no `if not self._is_leaf` branch", loc(fn, fn))
-        return
-    body = comp[0].body
-    pr = [s for s in body if isinstance(s, ast.Assign) and dotted(s.targets[0]) == "self.decomposition_dict" and isinstance(s.value, ast.Call) and call_name(s.value) == "prune_dict"]
-    sep = [s for s in flow.stmts_of_block(comp[0]) if isinstance(s, ast.Assign) and isinstance(s.value, ast.Call) and call_name(s.value) == SEPARATE]
-    okp = len(pr) == 1 and len(sep) == 1 and pr[0].lineno < sep[0].lineno
-    ctx.ob("R-PRUNED", "Function.add_point::weights pruned", okp, "zero weights are removed before the terms are classified" if okp else
-           "the weights of a composite are not pruned before the need classification", loc(fn, comp[0]))
-    # remainder: unroll the distribution loop for n = 1..3 terms
-    from ..model import iter_base
-    dist = []
-    for l in flow.stmts_of_block(comp[0]):
-        if isinstance(l, ast.For):
-            base, enum = iter_base(l.iter)
-            tg = l.target.elts[1] if enum and isinstance(l.target, ast.Tuple) and len(l.target.elts) == 2 else l.target
-            if isinstance(base, ast.BinOp) and isinstance(tg, ast.Tuple) and len(tg.elts) == 2 and all(isinstance(e, ast.Name) for e in tg.elts):
-                dist.append((l, tg, l.target.elts[0].id if enum and isinstance(l.target.elts[0], ast.Name) else None))
-    if len(dist) != 1:
-        ctx.ob("R-WSUM", "Function.add_point::remainder loop", False, "distribution loop over need-nothing + need-something not found", loc(fn, comp[0]))
-        return
-    lp, tg, posvar = dist[0]
-    fvar, wvar = [e.id for e in tg.elts]
-    # the loop visits every term exactly once, the terms that need nothing first, and runs exactly when some term needs something
-    blockdefs = {}
-    for s0 in flow.stmts_of_block(comp[0]):
-        if isinstance(s0, ast.Assign) and len(s0.targets) == 1:
-            t0 = s0.targets[0]
-            if isinstance(t0, ast.Name):
-                blockdefs.setdefault(t0.id, []).append(s0.value)
-            elif isinstance(t0, ast.Tuple) and isinstance(s0.value, ast.Call) and call_name(s0.value) == SEPARATE and len(t0.elts) == 3:
-                for k0, e0 in enumerate(t0.elts):
-                    if isinstance(e0, ast.Name):
-                        blockdefs.setdefault(e0.id, []).append(("sep", k0))
-
-    def comps(e, depth=0):
-        """list of indices into the (need nothing, need gradient, need both) classification, or None"""
-        if depth > 6:
-            return None
-        if isinstance(e, tuple) and e[0] == "sep":
-            return [e[1]]
-        if isinstance(e, ast.BinOp) and isinstance(e.op, ast.Add):
-            l0, r0 = comps(e.left, depth + 1), comps(e.right, depth + 1)
-            return None if l0 is None or r0 is None else l0 + r0
-        if isinstance(e, ast.Subscript) and isinstance(e.slice, ast.Constant) and isinstance(e.slice.value, int):
-            base = e.value
-            if isinstance(base, ast.Name) and len(blockdefs.get(base.id, [])) == 1:
-                base = blockdefs[base.id][0]
-            if isinstance(base, ast.Call) and call_name(base) == SEPARATE:
-                return [e.slice.value % 3] if -3 <= e.slice.value < 3 else None
-            return None
-        if isinstance(e, ast.Name) and len(blockdefs.get(e.id, [])) == 1:
-            return comps(blockdefs[e.id][0], depth + 1)
-        if isinstance(e, ast.Call) and call_name(e) == "list" and len(e.args) == 1:
-            return comps(e.args[0], depth + 1)
-        return None
-    dom = comps(iter_base(lp.iter)[0])
-    okd = dom == [0, 1, 2]
-    # ... and the lists are visited as the classification delivered them
-    touched = [c0 for c0 in ast.walk(comp[0]) if isinstance(c0, ast.Call) and isinstance(c0.func, ast.Attribute)
-               and c0.func.attr in ("sort", "reverse", "insert", "pop", "remove", "append", "extend", "clear")
-               and isinstance(c0.func.value, ast.Name) and comps(c0.func.value) is not None]
-    if okd and touched:
-        okd = False
-        dom = "%s after `%s`" % (dom, src(touched[0])[:60])
-    ctx.ob("R-WSUM", "Function.add_point::terms visited", okd,
-           "the distribution loop visits the terms that need nothing, then those that need a gradient / both, each once" if okd else
-           "the distribution loop runs over classification lists %s (0 = need nothing, 1 = need a gradient, 2 = need both): expected [0, 1, 2] as "
-           "classified -- otherwise a term is skipped / visited twice, or the remainder (gradient and value) is handed to a term that already has "
-           "a value at the point" % (dom if dom is not None else "`%s` (not resolved)" % src(lp.iter)), loc(fn, lp))
-    gconds = [(t0, br) for t0, br, _ in flow.effective_guards(lp, stop=fn) if not (src(t0).replace(" ", "") in ("notself._is_leaf", "notself.get_is_leaf()"))]
-    okg = False
-    gmsg = "the distribution loop is not guarded by exactly one test"
-    if len(gconds) == 1:
-        t0, br = gconds[0]
-        subj = None
-        positive = br
-        if isinstance(t0, ast.Compare) and len(t0.ops) == 1:
-            l0, op0, r0 = t0.left, t0.ops[0], t0.comparators[0]
-            empty = (isinstance(r0, ast.List) and not r0.elts) or (isinstance(r0, ast.Call) and call_name(r0) == "list" and not r0.args)
-            if empty and isinstance(op0, (ast.NotEq, ast.Eq)):
-                subj, positive = l0, (br if isinstance(op0, ast.NotEq) else not br)
-            elif isinstance(l0, ast.Call) and call_name(l0) == "len" and l0.args and isinstance(r0, ast.Constant) and r0.value == 0 and isinstance(op0, (ast.Gt, ast.NotEq, ast.Eq)):
-                subj, positive = l0.args[0], (br if not isinstance(op0, ast.Eq) else not br)
-        elif isinstance(t0, ast.UnaryOp) and isinstance(t0.op, ast.Not):
-            subj, positive = t0.operand, not br
-        else:
-            subj = t0
-        gd = comps(subj) if subj is not None else None
-        okg = gd is not None and sorted(gd) == [1, 2] and positive
-        gmsg = ("the remainder is distributed exactly when some term needs a gradient or a value" if okg else
-                "the distribution runs when `%s` is %s, i.e. on classification lists %s %s: expected 'some term needs something' (lists 1 and 2 non-empty)"
-                % (src(t0), br, gd, "non-empty" if positive else "empty"))
-    ctx.ob("R-WSUM", "Function.add_point::runs when something is needed", okg, gmsg, loc(fn, lp))
-    # initial values of the running remainder and the counter / total
-    pre = {}
-    for s in flow.stmts_of_block(comp[0]):
-        if isinstance(s, ast.Assign) and isinstance(s.targets[0], ast.Name) and s.lineno < lp.lineno:
-            pre[s.targets[0].id] = s.value
-        elif isinstance(s, ast.Assign) and isinstance(s.targets[0], ast.Tuple) and isinstance(s.value, ast.Tuple) and len(s.targets[0].elts) == len(s.value.elts) \
-                and s.lineno < lp.lineno:
-            for te, ve in zip(s.targets[0].elts, s.value.elts):
-                if isinstance(te, ast.Name):
-                    pre[te.id] = ve
-    for n in (1, 2, 3):
-        env = {p: PointV.atom("x"), g: PointV.atom("G"), f: ExprV.atom("F")}
-        samples = []
-        try:
-            ints = {}
-
-            def int_of(val):
-                if isinstance(val, ast.Constant) and isinstance(val.value, int) and not isinstance(val.value, bool):
-                    return val.value
-                if isinstance(val, ast.Call) and call_name(val) == "len":
-                    return n
-                if isinstance(val, ast.BinOp) and isinstance(val.op, (ast.Add, ast.Sub)):
-                    a, b = int_of(val.left), int_of(val.right)
-                    if a is not None and b is not None:
-                        return a + b if isinstance(val.op, ast.Add) else a - b
-                return None
-            for name, val in pre.items():
-                if dotted(val) in (g, f):
-                    env[name] = env[dotted(val)]
-                else:
-                    iv0 = int_of(val)
-                    if iv0 is not None:
-                        ints[name] = iv0
-            for i in range(n):
-                if posvar:
-                    ints[posvar] = i
-                env[wvar] = Rat.sym("w%d" % (i + 1))
-                _rem_body(lp.body, env, ints, fvar, i + 1, samples, p)
-        except (AnalysisError, SortError, KeyError) as e:
-            ctx.ob("R-WSUM", "Function.add_point::weighted sum n=%d" % n, False, "remainder not interpretable: %s" % e, loc(fn, lp))
-            continue
-        totg, totf = PointV(), ExprV()
-        for (i, gg, ff) in samples:
-            w = Rat.sym("w%d" % i)
-            totg = totg + gg.scale(w)
-            totf = totf + ff.scale(w)
-        ok = len(samples) == n and totg.equals(PointV.atom("G")) and totf.equals(ExprV.atom("F"))
-        ctx.ob("R-WSUM", "Function.add_point::weighted sum n=%d" % n, ok,
-               "the samples of the %d term(s) sum, with their weights, to the sample of the composite" % n if ok else
-               "with %d term(s): sum of weight * gradient = `%s` (expected G), sum of weight * value = `%s` (expected F)" % (n, totg, totf), loc(fn, lp))
-
-
-def _rem_body(stmts, env, ints, fvar, i, samples, p):
-    for s in stmts:
-        if isinstance(s, ast.If):
-            t = s.test
-            # counter < total - 1
-            def iv(e):
-                if isinstance(e, ast.Name) and e.id in ints:
-                    return ints[e.id]
-                if isinstance(e, ast.Constant):
-                    return e.value
-                if isinstance(e, ast.BinOp) and isinstance(e.op, (ast.Sub, ast.Add)):
-                    return iv(e.left) - iv(e.right) if isinstance(e.op, ast.Sub) else iv(e.left) + iv(e.right)
-                raise AnalysisError("integer expression %s" % src(e))
-            if not (isinstance(t, ast.Compare) and len(t.ops) == 1):
-                raise AnalysisError("test %s" % src(t))
-            a, b = iv(t.left), iv(t.comparators[0])
-            r = {ast.Lt: a < b, ast.LtE: a <= b, ast.Gt: a > b, ast.GtE: a >= b, ast.Eq: a == b, ast.NotEq: a != b}[type(t.ops[0])]
-            _rem_body(s.body if r else s.orelse, env, ints, fvar, i, samples, p)
-        elif isinstance(s, ast.Assign) and isinstance(s.targets[0], ast.Tuple) and isinstance(s.value, ast.Call) and call_name(s.value) == "oracle" \
-                and dotted(s.value.func.value) == fvar:
-            gi, fi = PointV.atom("g%d" % i), ExprV.atom("f%d" % i)
-            env[s.targets[0].elts[0].id] = gi
-            env[s.targets[0].elts[1].id] = fi
-            samples.append((i, gi, fi))
-        elif isinstance(s, ast.Assign) and isinstance(s.targets[0], ast.Name):
-            env[s.targets[0].id] = _Rem(env).ev(s.value)
-        elif isinstance(s, ast.AugAssign) and isinstance(s.target, ast.Name) and s.target.id in ints and isinstance(s.value, ast.Constant) \
-                and isinstance(s.value.value, int) and isinstance(s.op, (ast.Add, ast.Sub)):
-            ints[s.target.id] += s.value.value if isinstance(s.op, ast.Add) else -s.value.value
-        elif isinstance(s, ast.AugAssign) and isinstance(s.target, ast.Name) and s.target.id in env:
-            env[s.target.id] = _Rem(env).ev(ast.BinOp(left=ast.Name(id=s.target.id, ctx=ast.Load()), op=s.op, right=s.value))
-        elif isinstance(s, ast.Expr) and isinstance(s.value, ast.Call) and call_name(s.value) == "add_point" and dotted(s.value.func.value) == fvar:
-            a = s.value.args[0]
-            if not (isinstance(a, ast.Tuple) and len(a.elts) == 3 and dotted(a.elts[0]) == p):
-                raise AnalysisError("the last term is given `%s`" % src(a))
-            gg, ff = _Rem(env).ev(a.elts[1]), _Rem(env).ev(a.elts[2])
-            if not (isinstance(gg, PointV) and isinstance(ff, ExprV)):
-                raise SortError("remainder sorts")
-            samples.append((i, gg, ff))
-        else:
-            raise AnalysisError("statement `%s`" % norm_stmt(s)[:50])
+    # 2. composite branch: decided on the unrolled program
+    r_addpoint_program(ctx)
 
 
 # ---------------------------------------------------------------------------------------------------
